@@ -106,7 +106,15 @@ def gen_world(rng, tier, *, min_species=2, max_species=5, allow_small_refs=True,
         box = [round(rng.uniform(5, 30), 5) for _ in range(3)]
     else:
         d = [round(rng.uniform(5, 30), 5) for _ in range(3)]
-        box = d + [0.0, 0.0, round(rng.uniform(-2, 2), 5), 0.0, round(rng.uniform(-2, 2), 5), round(rng.uniform(-2, 2), 5)]
+        off = [round(rng.uniform(-2, 2), 5), round(rng.uniform(-2, 2), 5), round(rng.uniform(-2, 2), 5)]
+        shape = rng.random()
+        if shape < 0.2:
+            off = [off[0], 0.0, 0.0]          # monoclinic / hexagonal: only v2(x) differs from zero
+        elif shape < 0.4:
+            off = [0.0, off[1], off[2]]       # only the third vector is tilted
+        elif shape < 0.5:
+            off = [0.0, 0.0, off[2]]          # only v3(y)
+        box = d + [0.0, 0.0, off[0], 0.0, off[1], off[2]]
     title = rng.choice(["Mapped world", "t= 100.000 step= 5000", "  two  spaces ", "System; with [brackets] and #hash",
                         "x" * 60]) + " %d" % rng.randrange(1000)
     if rng.random() < 0.15:
@@ -119,6 +127,9 @@ def gen_world(rng, tier, *, min_species=2, max_species=5, allow_small_refs=True,
         pos = np.array(e["positions"])
         pos = pos - pos.mean(axis=0) + centre + np.array(gen.rvec(rng, 0.2))
         e["positions"] = gen.round3(pos)
+        if rng.random() < 0.25:
+            # the end coordinates come from a trajectory frame: velocity columns (on some species only, as a rule)
+            e["velocities"] = [[round(rng.uniform(-2, 2), 4) for _ in range(3)] for _ in range(len(e["positions"]))]
     return {"species": species, "solvent": solvent, "lines": lines, "instances": instances, "box": box, "title": title}
 
 
@@ -128,6 +139,8 @@ def system_text(world):
 
 def end_gro_text(spec):
     ls, _ = gen.gro_atom_lines(spec, spec["positions"], 1, 1)
+    if spec.get("velocities"):
+        ls = [l + "%8.4f%8.4f%8.4f" % tuple(v) for l, v in zip(ls, spec["velocities"])]
     return gen.gro_text("end resolution " + spec["name"], ls, [5.0, 5.0, 5.0])
 
 
